@@ -15,6 +15,9 @@ func (e *Environment) VerifStore() map[string]Object {
 
 func (e *Environment) VerifNumReg() int { return e.numReg }
 
+// VerifRegisters returns the values of the registers in use, in allocation order.
+func (e *Environment) VerifRegisters() []int64 { return append([]int64(nil), e.registers[:e.numReg]...) }
+
 // VerifIsSmall reports whether a container uses the small (by value) representation.
 func VerifIsSmall(o Object) bool {
 	switch o.(type) {
